@@ -251,3 +251,130 @@ def idle_predicate_check(ch: Any, rule: str) -> None:
                 if 'notself.work.has_buffer()and' not in txt and not txt.endswith('andnotself.work.has_buffer()'):
                     bad4 = ('is_inactive() returns %s, which does not require an empty client buffer' % norm(v)[:80], p.describe())
     ch.check(bad4 is None and n4 >= 1, rule, ia, 'idle predicate', 'idle only with an empty buffer', bad4[0] if bad4 else 'is_inactive never returns True', witness=bad4[1] if bad4 else None)
+
+
+# ----------------------------------------------------------------------------------------
+# freshness of per-response header maps
+def _alternatives(e: ast.AST) -> List[ast.AST]:
+    """the expressions e may evaluate to through `or` / `and` / conditional expressions"""
+    if isinstance(e, ast.BoolOp):
+        out: List[ast.AST] = []
+        for v in e.values:
+            out.extend(_alternatives(v))
+        return out
+    if isinstance(e, ast.IfExp):
+        return _alternatives(e.body) + _alternatives(e.orelse)
+    return [e]
+
+
+def shared_mutable(prog: Program, fn: FuncInfo, e: ast.AST) -> Optional[str]:
+    """e names a mutable container that outlives the call: a module-level binding (possibly imported) or a class attribute
+    whose value is a dict/list/set display or constructor call.  -> description or None"""
+    if isinstance(e, ast.Name) and e.id not in fn.params:
+        r = prog.resolve(fn.module, e.id)
+    elif isinstance(e, ast.Attribute) and isinstance(e.value, ast.Name) and e.value.id in ('self', 'cls') and fn.cls is not None:
+        v = prog.lookup_class_attr(fn.cls, e.attr)
+        r = ('const', v[0].module, v[1]) if v is not None else ('unknown',)
+    elif isinstance(e, ast.Attribute):
+        r = prog.resolve_expr(fn.module, e)
+    else:
+        return None
+    if r[0] == 'const':
+        v = r[2]
+        if isinstance(v, (ast.Dict, ast.List, ast.Set, ast.DictComp, ast.ListComp, ast.SetComp)) or \
+                (isinstance(v, ast.Call) and attr_chain(v.func) in ('dict', 'list', 'set', 'collections.OrderedDict', 'OrderedDict', 'defaultdict', 'collections.defaultdict')):
+            return '%s (bound once in %s)' % (norm(e), r[1].name if hasattr(r[1], 'name') else r[1])
+    return None
+
+
+def header_mutators(prog: Program) -> Dict[str, FuncInfo]:
+    """module-level builders that write into the `headers` mapping they are given (after `headers = headers or {}` etc.)"""
+    from ..cfg import cfg_of
+    from ..flow import Sym, fpaths
+    out: Dict[str, FuncInfo] = {}
+    for fn in prog.all_functions('proxy'):
+        if fn.cls is not None or 'headers' not in fn.params or not fn.module.name.startswith(('proxy.common.utils', 'proxy.http.responses')):
+            continue
+        g = cfg_of(fn, prog, exc_edges=False)
+        hit = False
+        for p in fpaths(g):
+            sym = Sym(p)
+            for i, st in p.stmts():
+                for chn, kind, node in attr_effects(st):
+                    pass
+                for n in walk_no_nested(st):
+                    tgt = None
+                    if isinstance(n, ast.Subscript) and isinstance(n.ctx, (ast.Store, ast.Del)) and isinstance(n.value, ast.Name):
+                        tgt = n.value
+                    elif isinstance(n, ast.Call) and isinstance(n.func, ast.Attribute) and n.func.attr in ('update', 'setdefault', 'pop', 'clear', 'popitem') and isinstance(n.func.value, ast.Name):
+                        tgt = n.func.value
+                    if tgt is not None and any(isinstance(a, ast.Name) and a.id == 'headers' for a in _alternatives(sym.value(tgt, i))):
+                        hit = True
+            if hit:
+                break
+        if hit:
+            out[fn.name] = fn
+    # builders that pass their own `headers` on to a mutator
+    changed = True
+    while changed:
+        changed = False
+        for fn in prog.all_functions('proxy'):
+            if fn.cls is not None or 'headers' not in fn.params or fn.name in out or not fn.module.name.startswith(('proxy.common.utils', 'proxy.http.responses')):
+                continue
+            for c in walk_no_nested(fn.node):
+                if isinstance(c, ast.Call) and (attr_chain(c.func) or '').split('.')[-1] in out:
+                    for k in c.keywords:
+                        if k.arg == 'headers' and isinstance(k.value, ast.Name) and k.value.id == 'headers':
+                            out[fn.name] = fn
+                            changed = True
+    return out
+
+
+def fresh_headers_check(ch: Any, rule: str, functions: Optional[List[FuncInfo]] = None) -> int:
+    """every header mapping handed to a builder that writes into it is created for that one message: on every path the
+    argument evaluates to a display / comprehension / dict(...) / a parameter / an instance attribute, never (not even as
+    an `or`-alternative) to a module-level or class-level container.  Likewise a local that may alias such a container
+    is not written to."""
+    from ..cfg import cfg_of
+    from ..flow import Sym, fpaths
+    prog = ch.prog
+    muts = header_mutators(prog)
+    n = 0
+    fns = functions if functions is not None else [f for f in prog.all_functions('proxy') if not f.module.name.startswith(('proxy.plugin', 'proxy.testing'))]
+    for fn in fns:
+        sites = [c for c in walk_no_nested(fn.node) if isinstance(c, ast.Call) and (attr_chain(c.func) or '').split('.')[-1] in muts
+                 and any(k.arg == 'headers' for k in c.keywords)]
+        writes = [x for x in walk_no_nested(fn.node) if isinstance(x, ast.Subscript) and isinstance(x.ctx, (ast.Store, ast.Del)) and isinstance(x.value, ast.Name)]
+        if not sites:
+            continue
+        g = cfg_of(fn, prog, exc_edges=False)
+        verdict: Dict[int, Tuple[ast.AST, Optional[str], List[str]]] = {}
+        for p in fpaths(g):
+            ch.paths += 1
+            sym = Sym(p)
+            for i, st in p.stmts():
+                for x in walk_no_nested(st):
+                    cand = None
+                    if any(x is c for c in sites):
+                        cand = [k.value for k in x.keywords if k.arg == 'headers'][0]   # type: ignore[attr-defined]
+                    elif any(x is w for w in writes):
+                        cand = x.value   # type: ignore[attr-defined]
+                    if cand is None:
+                        continue
+                    why = None
+                    for alt in _alternatives(sym.value(cand, i)):
+                        why = why or shared_mutable(prog, fn, alt)
+                    prev = verdict.get(id(x))
+                    if prev is None or (prev[1] is None and why is not None):
+                        verdict[id(x)] = (x, why, p.describe(16) if why else [])
+        for x, why, wit in verdict.values():
+            if isinstance(x, ast.Call):
+                n += 1
+                ch.check(why is None, rule, fn, x, 'the header map is created for this message',
+                         'the header map handed to %s may be %s: the builder writes Content-Length / Content-Encoding / Connection into the map it is given, so what one response '
+                         'adds stays in the shared map and is sent with every later response (e.g. `Content-Encoding: gzip` on a body that is not compressed)'
+                         % ((attr_chain(x.func) or '?').split('.')[-1], why), witness=wit)
+            elif why is not None:
+                n += 1
+                ch.bad(rule, fn, x, 'a per-message header is written into %s, which is shared by every call' % why, witness=wit, line=x.lineno)
+    return n
